@@ -73,6 +73,11 @@ def registry():
         LogLocalErrorPostIter,
     )
 
+    from pySDC.projects.DAE.problems.simpleDAE import SimpleDAE
+    from pySDC.projects.DAE.problems.discontinuousTestDAE import DiscontinuousTestDAE
+    from pySDC.projects.DAE.sweepers.fullyImplicitDAE import FullyImplicitDAE
+    from pySDC.projects.DAE.sweepers.semiImplicitDAE import SemiImplicitDAE
+
     reg = dict(locals())
     for name in ('ESDIRK43', 'Cash_Karp', 'Heun_Euler', 'DIRK43', 'ESDIRK53', 'ARK548L2SA', 'ARK54', 'ARK3', 'ARK32'):
         for cand in (name, name.replace('L2SA', 'L2SAESDIRK')):
@@ -235,17 +240,18 @@ def on_post_step(ctx, S, ln):
 
 def shadow_check(name):
     def h(ctx, S, ln):
-        if ctx.shadow is None or ln != 0:
+        if ctx.shadow is None or (ln != 0 and name != 'post_sweep'):
             return
-        L = S.levels[0]
+        L = S.levels[ln]
         if any(u is None for u in L.u) or L.status.residual is None:
             return
-        val, full, scale = ctx.shadow.residual(L, 0, L.params.residual_type)
+        val, full, scale = ctx.shadow.residual(L, ln, L.params.residual_type)
         ctx.shadow_recs.append(
             {
                 'at': name,
                 'block': ctx.block,
                 'slot': S.status.slot,
+                'level': ln,
                 'iter': S.status.iter,
                 'reported': float(L.status.residual),
                 'shadow': val,
@@ -267,7 +273,13 @@ def on_post_step_shadow(ctx, S, ln):
     shadow_check('post_step')(ctx, S, ln)
 
 
-HANDLERS = {'pre_step': on_pre_step, 'post_step': on_post_step_shadow, 'pre_iteration': on_pre_iteration, 'post_iteration': shadow_check('post_iteration')}
+HANDLERS = {
+    'pre_step': on_pre_step,
+    'post_step': on_post_step_shadow,
+    'pre_iteration': on_pre_iteration,
+    'post_iteration': shadow_check('post_iteration'),
+    'post_sweep': shadow_check('post_sweep'),
+}
 
 
 def apply_soft(ctx, S, faults):
@@ -279,6 +291,17 @@ def apply_soft(ctx, S, faults):
         if L.u[m] is None:
             continue
         P = L.prob
+        if f['kind'] == 'inplace':
+            # the way pySDC's own Resilience.FaultInjector corrupts data: it writes into the array the level holds
+            m = f['node'] % (L.sweep.coll.num_nodes + 1)
+            if L.u[m] is None:
+                continue
+            np.asarray(L.u[m])[...] = np.asarray(L.u[m]) * (1.0 + f['rel']) + f['rel']
+            if L.f[m] is not None:
+                L.f[m] = P.eval_f(L.u[m], L.time + (L.dt * L.sweep.coll.nodes[m - 1] if m > 0 else 0.0))
+            ctx.res.fault('soft_inplace')
+            ctx.log.add('inj', 'soft', ctx.block, S.status.slot, f['level'], m, 'inplace')
+            continue
         if f['kind'] == 'add':
             scale = max(abs(L.u[m]), 1e-300)
             L.u[m] = L.u[m] + f['rel'] * scale
@@ -486,7 +509,9 @@ def conv_params(p):
     return out
 
 
-def build(sc, ctx, extra_hooks=(), counting=False):
+def build(sc, ctx, extra_hooks=(), counting=False, plain=False, shared=None):
+    """plain=True: no observer/instrumentation (C19 histories); shared=(controller_params, description): construct from these
+    very dictionaries (pySDC's constructors mutate them) instead of fresh ones."""
     from pySDC.implementations.controller_classes.controller_nonMPI import controller_nonMPI
 
     cfg = sc['config']
@@ -509,17 +534,23 @@ def build(sc, ctx, extra_hooks=(), counting=False):
     ccs = {}
     for name, params in cfg.get('cc', []):
         ccs[resolve(name)] = dict(params)
-    vcc = make_ccs(ctx)
-    for name in sc.get('plugins', ['MonFirst']):
-        ccs[vcc[name]] = {}
+    if not plain:
+        vcc = make_ccs(ctx)
+        for name in sc.get('plugins', ['MonFirst']):
+            ccs[vcc[name]] = {}
     desc['convergence_controllers'] = ccs
-    hooks = [make_observer(ctx)] + [resolve(h) for h in cfg.get('hooks', [])] + list(extra_hooks)
+    hooks = ([] if plain else [make_observer(ctx)]) + [resolve(h) for h in cfg.get('hooks', [])] + list(extra_hooks)
     cparams = {'logger_level': 90, 'dump_setup': False, 'hook_class': hooks, **cfg.get('controller', {})}
+    if shared is not None:
+        if not shared:
+            shared.extend([cparams, desc])
+        cparams, desc = shared
     ctrl = controller_nonMPI(cfg['P'], cparams, desc)
     logging.getLogger().handlers.clear()
     ctx.ctrl = ctrl
     ctx.desc = desc
-    instrument(ctrl, ctx)
+    if not plain:
+        instrument(ctrl, ctx)
     return ctrl
 
 
@@ -637,6 +668,9 @@ def run(sc, res=None, log=None, extra_hooks=(), counting=False, keep_ctrl=False)
     CURRENT_CTX[0] = ctx
     warnings.simplefilter('ignore')
     np.seterr(all='ignore')
+    # scipy's BarycentricInterpolator (used by pySDC's space transfer) draws a permutation from numpy's GLOBAL RNG: pin it so
+    # that one seed is one execution (the dependence itself is C19's business, finding F11)
+    np.random.seed(20260925)
     if sc.get('spy_stats'):
         install_stats_spy()
     ctrl = build(sc, ctx, extra_hooks=extra_hooks, counting=counting)
@@ -724,13 +758,13 @@ def install_stats_spy():
     def add_to_stats(self, value, **kwargs):
         ctx = CURRENT_CTX[0]
         if ctx is not None and hasattr(ctx, 'stat_writes'):
-            ctx.stat_writes.append(('add', key_of(self, kwargs), value, type(self).__name__, ctx.seq))
+            ctx.stat_writes.append(('add', key_of(self, kwargs), value, type(self).__name__, ctx.seq, bdigest(value) if isinstance(value, np.ndarray) else None))
         return orig_add(self, value, **kwargs)
 
     def increment_stats(self, value, initialize=None, **kwargs):
         ctx = CURRENT_CTX[0]
         if ctx is not None and hasattr(ctx, 'stat_writes'):
-            ctx.stat_writes.append(('inc', key_of(self, kwargs), value, type(self).__name__, ctx.seq))
+            ctx.stat_writes.append(('inc', key_of(self, kwargs), value, type(self).__name__, ctx.seq, None))
         return orig_inc(self, value, initialize=initialize, **kwargs)
 
     Hooks.add_to_stats, Hooks.increment_stats = add_to_stats, increment_stats
